@@ -266,10 +266,12 @@ def _archive(fmt, root, d, top_member):
             'Package: %s\nVersion: 1.0\nArchitecture: amd64\nMaintainer: nobody <nobody@example.org>\nDescription: workload package\n' % os.path.basename(d).lower())
         cmd = ['dpkg-deb', '--root-owner-group', '-b', d, out]
     elif top_member:
-        cmd = ['tar', '-C', root, '-c' + ('z' if fmt.endswith('gz') else '') + 'f', out, os.path.basename(d)]
+        cmd = ['tar', '--mtime=@1600000000', '-C', root, '-c' + ('z' if fmt.endswith('gz') else '') + 'f', out, os.path.basename(d)]
     else:
-        cmd = ['tar', '-C', d, '-c' + ('z' if fmt.endswith('gz') else '') + 'f', out, 'usr']
-    p = subprocess.run(cmd, stdout=subprocess.PIPE, stderr=subprocess.STDOUT)
+        cmd = ['tar', '--mtime=@1600000000', '-C', d, '-c' + ('z' if fmt.endswith('gz') else '') + 'f', out, 'usr']
+    # fixed time stamps: the same workload gives the same archive bytes whenever it is materialised (a torn-archive plan
+    # names its cut as a fraction of the archive's length)
+    p = subprocess.run(cmd, stdout=subprocess.PIPE, stderr=subprocess.STDOUT, env=dict(os.environ, SOURCE_DATE_EPOCH='1600000000'))
     if p.returncode != 0:
         raise C.InfraError('%s failed: %s' % (cmd[0], p.stdout[-300:]))
     shutil.rmtree(d)
